@@ -525,10 +525,10 @@ class SortedIntSet(DocIdSet):
         return SortedIntSet((num for num in self if num not in other))
 
     def first(self):
-        return self.data[0]
+        return self.data[0] if self.data else None
 
     def last(self):
-        return self.data[-1]
+        return self.data[-1] if self.data else None
 
     def before(self, i):
         data = self.data
